@@ -75,12 +75,14 @@ type client struct {
 	relay net.IP // giaddr or nil
 	cid   []byte // option 82 circuit-id (unique per client) or nil
 	// userspace view
-	offered net.IP
-	bound   net.IP
-	ref     *dhcpv4.DHCPv4 // last userspace OFFER/ACK carrying an address for this client
-	ended   string         // "released", "declined", "expired" or ""
-	hadCID  bool
-	o82     int // shape of option 82 in the next userspace message: 0 full, 1 remote-id only, 2 absent
+	offered  net.IP
+	bound    net.IP
+	ref      *dhcpv4.DHCPv4 // last userspace OFFER/ACK carrying an address for this client
+	ended    string         // "released", "declined", "expired" or ""
+	hadCID   bool
+	swapped  int              // how often the hardware address behind this circuit-id was replaced
+	leaseMAC net.HardwareAddr // hardware address the userspace lease was last acknowledged to
+	o82      int              // shape of option 82 in the next userspace message: 0 full, 1 remote-id only, 2 absent
 }
 
 func (c *client) request(mt dhcpv4.MessageType, xid uint32, req net.IP, ciaddr net.IP) *dhcpv4.DHCPv4 {
@@ -332,6 +334,16 @@ func TestFastPathAgreesWithUserspace(t *testing.T) {
 			scripts = append(scripts, sc)
 		}
 	}
+	// the CPE behind the line is replaced (op 20), the new station takes the lease over through the circuit-id
+	// index, and then the lease ends by each path
+	for _, end := range []int{7, 8, 11} {
+		sc := []forced{{0, 0}, {3, 0}, {20, 0}, {0, 0}, {3, 0}}
+		if end == 11 {
+			sc = append(sc, forced{9, 0})
+		}
+		sc = append(sc, forced{end, 0}, forced{0, 0})
+		scripts = append(scripts, sc)
+	}
 	// the scripted matrix runs three times: 6-, 7- and 16-octet client hardware addresses
 	total := histories + 3*len(scripts)*len(pools)
 	for h := 0; h < total; h++ {
@@ -415,9 +427,23 @@ func TestFastPathAgreesWithUserspace(t *testing.T) {
 			for s := 0; s < steps; s++ {
 				c := clients[rng.IntN(nClients)]
 				xid++
+				if script != nil {
+					c = clients[0]
+				}
+				if (script == nil && c.relay != nil && c.cid != nil && c.bound != nil && rng.IntN(8) == 0) || (script != nil && script[s].op == 20) {
+					// the CPE behind this access line is replaced: same relay and circuit-id, new hardware address.
+					// The binding belongs to the line (userspace finds the lease by circuit-id and keeps the address).
+					c.mac = net.HardwareAddr{0x02, byte(h), byte(rng.IntN(256)), byte(rng.IntN(256)), byte(0x80 | s), c.mac[5]}
+					c.swapped++
+					run.Count("cpe_swaps", 1)
+					trace = append(trace, fmt.Sprintf("CPE replaced: circuit-id %q now has hardware address %s", c.cid, c.mac))
+					if script != nil {
+						continue
+					}
+				}
 				c.o82 = 0
-				if c.bound != nil && rng.IntN(3) == 0 {
-					c.o82 = 1 + rng.IntN(2) // only renewals vary: the first exchange always carries the circuit-id
+				if c.bound != nil && rng.IntN(3) == 0 && (c.leaseMAC == nil || c.leaseMAC.String() == c.mac.String()) {
+					c.o82 = 1 + rng.IntN(2) // only renewals vary: the first exchange (also of a replaced CPE) always carries the circuit-id
 				}
 				x := rng.IntN(12)
 				if script != nil {
@@ -446,6 +472,7 @@ func TestFastPathAgreesWithUserspace(t *testing.T) {
 					r := send(c, c.request(dhcpv4.MessageTypeRequest, xid, want, nil))
 					if r != nil && r.MessageType() == dhcpv4.MessageTypeAck {
 						c.bound, c.ref, c.ended = r.YourIPAddr, r, ""
+						c.leaseMAC = append(net.HardwareAddr(nil), c.mac...)
 						c.hadCID = c.hadCID || c.cid != nil
 						trace = append(trace, fmt.Sprintf("%s REQUEST %v -> ACK", c.mac, want))
 					} else {
@@ -456,6 +483,12 @@ func TestFastPathAgreesWithUserspace(t *testing.T) {
 						continue
 					}
 					send(c, c.request(dhcpv4.MessageTypeRelease, xid, nil, c.bound))
+					if c.leaseMAC != nil && c.leaseMAC.String() != c.mac.String() {
+						// the replaced CPE has no lease of its own yet: its RELEASE ends nothing
+						run.Count("release_by_station_without_lease", 1)
+						trace = append(trace, fmt.Sprintf("%s RELEASE (station has no lease of its own; the line's lease stays)", c.mac))
+						break
+					}
 					c.bound, c.offered, c.ref, c.ended = nil, nil, nil, "released"
 					trace = append(trace, fmt.Sprintf("%s RELEASE", c.mac))
 				case x < 9:
@@ -463,6 +496,11 @@ func TestFastPathAgreesWithUserspace(t *testing.T) {
 						continue
 					}
 					send(c, c.request(dhcpv4.MessageTypeDecline, xid, c.bound, nil))
+					if c.leaseMAC != nil && c.leaseMAC.String() != c.mac.String() {
+						run.Count("decline_by_station_without_lease", 1)
+						trace = append(trace, fmt.Sprintf("%s DECLINE (station has no lease of its own; the line's lease stays)", c.mac))
+						break
+					}
 					c.bound, c.offered, c.ref, c.ended = nil, nil, nil, "declined"
 					trace = append(trace, fmt.Sprintf("%s DECLINE", c.mac))
 				case x < 10:
@@ -480,7 +518,11 @@ func TestFastPathAgreesWithUserspace(t *testing.T) {
 					now := time.Now().UnixNano()
 					for _, cc := range clients {
 						if cc.bound != nil {
-							if _, exp, ok := srv.VerifLeaseIP(cc.mac); !ok || exp < now {
+							lm := cc.mac
+							if cc.leaseMAC != nil {
+								lm = cc.leaseMAC // the lease is kept under the hardware address it was acknowledged to
+							}
+							if _, exp, ok := srv.VerifLeaseIP(lm); !ok || exp < now {
 								cc.bound, cc.offered, cc.ref, cc.ended = nil, nil, nil, "expired"
 							}
 						}
@@ -593,7 +635,13 @@ func TestFastPathAgreesWithUserspace(t *testing.T) {
 						run.Eval()
 						run.Count("probes_"+ps.name, 1)
 						wit := func() any {
-							return map[string]any{"pool": fmt.Sprintf("%+v", pc), "client": c.mac.String(), "relay": fmt.Sprint(c.relay), "circuit_id": string(c.cid), "history": trace, "probe": ps.name, "frame": fmt.Sprintf("%x", frame), "verdict": res.Verdict, "out": fmt.Sprintf("%x", res.Out)}
+							var hits []string
+							for _, a := range res.Log {
+								if a.Op == 'l' && a.Hit {
+									hits = append(hits, fmt.Sprintf("%s[%x]", a.Map, a.Key))
+								}
+							}
+							return map[string]any{"cache_hits": hits, "pool": fmt.Sprintf("%+v", pc), "client": c.mac.String(), "relay": fmt.Sprint(c.relay), "circuit_id": string(c.cid), "history": trace, "probe": ps.name, "frame": fmt.Sprintf("%x", frame), "verdict": res.Verdict, "out": fmt.Sprintf("%x", res.Out)}
 						}
 						switch res.Verdict {
 						case 2: // XDP_PASS
